@@ -6,7 +6,7 @@
    supplies it, computed with the sha2 crate); theorems quantify over any 32-byte digest. *)
 From Coq Require Import List NArith Bool.
 From V.gen Require Consts.
-From V.common Require Import Wire Varint Protobuf.
+From V.common Require Import Wire Varint Protobuf Sha256.
 Import ListNotations.
 Open Scope N_scope.
 
@@ -504,3 +504,9 @@ Definition parse_sites : list (N * N * N) :=
    (12, 25, 10); (* transport/websocket multiaddr_into_url: /p2p -> from_multihash    [admits] *)
    (13, 19, 10); (* transport/quic/listener.rs get_socket_address: /p2p -> from_multihash [admits] *)
    (14, 26, 11)]. (* addresses.rs ensure_local_peer -> try_from_multiaddr              [of_component] *)
+
+(* ---------- derivation with SHA-256 itself ---------- *)
+(* `derive sha256` written so that the extracted code does not compute a digest it does not use
+   (KeyProofs.derive_fast_eq) *)
+Definition derive_fast (enc : list N) : pid :=
+  if len enc <=? MAX_INLINE then mkPid IDENTITY enc else mkPid SHA256 (sha256 enc).
